@@ -10,6 +10,7 @@ import Driver.V1
 import Driver.Sched
 import Driver.Invoke
 import Driver.ModStoreDrv
+import Driver.EvalDrv
 open Driver
 
 /-- a trailing field starting with '#' carries human-readable context and is ignored -/
@@ -34,6 +35,7 @@ def dispatch (line : String) : String :=
   | "sched" :: args => handleSched args
   | "inv" :: args => handleInv args
   | "ms" :: args => handleMs args
+  | "eval" :: args => handleEval args
   | _ => "bad-op"
 
 partial def loop (h : IO.FS.Stream) (out : IO.FS.Stream) : IO Unit := do
